@@ -14,22 +14,22 @@ levels = {
  "C02": (MC, "TLC checks that the operational model Goit.tla satisfies the C02 clauses on every transition of MC_Stage; every generated transition is replayed on the real binary and judged by TLC (C02_OneNew, C02_Snapshot through independently decoded trees, C02_Parent, C02_Move, C02_Who), plus random histories over the sibling/nested/odd name families", "6 C02"),
  "C03": (MC, "C03_Connected as a preserved invariant of the model (MC_Refs, MC_Stage) and as a clause judged by TLC on every real step, including hostile arguments (ids of blobs/trees, unknown ids, path-like branch names, malformed reset positions)", "6 C03"),
  "C04": (MC, "AddExact/RmExact effect clauses, per path, judged by TLC on every real add/rm step against the whole projected state; argument lists from the model (files, directories, '.', deleted-but-tracked, repeated, unknown) and random", "6 C04"),
- "C05": (MC, "reset --mixed/--hard index = independent flattening of the target commit's trees; cat-file -p of every new tree = its decoded children; over name families with spaces, suffix siblings, non-ASCII and the empty snapshot", "6 C05"),
+ "C05": (MC, "reset --mixed/--hard index = independent flattening of the target commit's trees; cat-file -p of every new tree = its decoded children; over name families with spaces, suffix siblings, punctuation, non-ASCII, every name length 1..66 and around 128/255 (tree lines of exactly 32k bytes, trees and index above 4096 bytes) and the empty snapshot", "6 C05"),
  "C06": (MC, "index canonical form as preserved invariant; ls-files = independent decoding; tracked path / tracked directory selection clauses on add, rm, restore", "6 C06"),
  "C07": (MC, "status 'Changes to be committed' = Diff(HEAD snapshot, staging area) computed by TLC from independently decoded trees, in every state of every execution; clean after commit; nothing-to-commit refused; any staged difference commits", "6 C07"),
  "C08": (MC, "reset target = the entry `reflog` shows at position n in the pre-state; per-mode clauses on branch, index, working tree; refusal of malformed/out-of-range positions; model MC_Refs/MC_Stage enumerates every position and mode in every reachable history inside the bound", "6 C08"),
  "C09": (MC, "restore / restore --staged exactness clauses on every real step (selected paths get staged/HEAD content, nothing else changes), arguments: file, existing directory, deleted file, deleted directory, unknown", "6 C09"),
  "C10": (MC, "branch/HEAD state machine: MC_Refs explores every interleaving of create/delete/rename/switch/switch -c/update-ref/commit/reset inside the bound, TLC checks the C10 clauses on the model and on the replay of every edge on the real binary; branch --list and rev-parse compared with the stored state in every state", "6 C10"),
  "C11": (MC, "reflog view before/after every command: append-only shift, newest entry = HEAD commit with the right kind after commit/switch/reset, readable after rename/delete and for every message class and zone offset", "6 C11"),
- "C12": (MC, "all 105 quarter-hour offsets (generated TZif files) x identity and message classes: stored sign lines parse strictly, offset/instant match the run, log and cat-file read back the same", "6 C12"),
- "C13": (MC, "status modified/deleted/untracked sections = the sets computed by TLC from the projected index, blobs and working tree (content tokens, no hashing), with .goitignore latitude; touch and identical rewrite leave the report unchanged", "6 C13"),
- "C14": (MC, "log -n k (k in 0..9 and default) = first min(k, len) elements of the first-parent chain computed by TLC from decoded commits, in every state; depends only on objects and HEAD commit", "6 C14"),
- "C15": (FE, "every crash point (prefix of the strace-recorded file-system modifications) of every modifying command over scenario + random pre-states is materialised, projected and judged by TLC against C15_Loads, C15_Refs, C15_Reach, C15_OldOrNew; recording self-checked, sample cross-checked by really killing the process", "6 C15"),
+ "C12": (MC, "all 105 quarter-hour offsets (generated TZif files) x identity and message classes: stored sign lines parse strictly, offset/instant match the run, log and cat-file read back the same; e-mail addresses and names drawn from grammars (every punctuation character), message lines and names around 4096 and 8192 bytes", "6 C12"),
+ "C13": (MC, "status modified/deleted/untracked sections = the sets computed by TLC from the projected index, blobs and working tree (content tokens, no hashing), with .goitignore latitude; touch and identical rewrite leave the report unchanged; the model's transcription of cmd/status.go (StatusImpl, with the ignore matching of internal/store/ignore.go) is checked by TLC against the same clauses on every transition of the bounded instances", "6 C13"),
+ "C14": (MC, "log -n k (k in 0..9 and default) = first min(k, len) elements of the first-parent chain computed by TLC from decoded commits, in every state; depends only on objects and HEAD commit; the transcription of cmd/log.go's queue (LogImpl/LogObs) is checked against TakeN(Chain, k) on every reachable model state", "6 C14"),
+ "C15": (FE, "every crash point (prefix of the strace-recorded file-system modifications) of every modifying command over scenario + random pre-states is materialised, projected and judged by TLC against C15_Loads, C15_Refs, C15_Reach, C15_OldOrNew; recording self-checked, sample cross-checked by really killing the process; the write protocols are model-checked at design level (GoitFS/MC_FS: a crash at every position of every interleaving; MC_FSOld, the protocol branch -r had before its repair, is the negative control) and every recorded run is checked to be in the language of its command's plan", "6 C15"),
  "C16": (FE, "every single fault position (open/create/read/readdir/write/mkdir/rename/remove, stat excluded) of every modifying command, injected with strace, judged by TLC against C16_NoCrash, C16_HonestSuccess (all functional clauses + same result as the fault-free run), C16_Connected, C16_NoBadAdvance", "6 C16"),
  "C17": (MC, "no index path inside .goit, no ignored path staged or listed, nothing hidden without .goitignore, metadata bytes untouched by restore/reset --hard; argument forms '.', parent directory, ignored path itself, nested; clauses judged by TLC on every step", "6 C17"),
  "C18": (MC, "CLI grammar (22 sub-command forms x flag subsets x 0..3 arguments from valid/missing/surplus/malformed/non-existent/metacharacter classes) against states reached by the model tour and random histories, incl. fresh repository, emptied index, empty snapshot, renamed branch: result in {ok, refused}, refused => byte-identical repository", "6 C18"),
- "C19": (FE, "every truncation, every single-byte deletion, single-byte substitutions, object swaps and generator-made arbitrary bytes for object, index, HEAD, branch, config and reflog files of repositories Goit produced; every read-only command, cat-file, restore, reset --hard run on each; judged by TLC (C19_Total, C19_NoWrongData)", "6 C19"),
- "C20": (MC, "config write = exact update of the parsed file of that scope, other scope untouched, file parses strictly; author of the next commit = local-before-global identity; commit gated on both name and e-mail; values with '=', brackets, '#', quotes, non-ASCII", "6 C20"),
+ "C19": (FE, "every truncation, every single-byte deletion, single-byte substitutions, field-level damage of the text files (fields shortened, lengthened, split, joined), object swaps, crafted objects and generator-made arbitrary bytes for object, index, HEAD, branch, config and reflog files of repositories Goit produced; every read-only command, cat-file, restore, reset --hard run on each; judged by TLC (C19_Total, C19_NoWrongData)", "6 C19"),
+ "C20": (MC, "config write = exact update of the parsed file of that scope, other scope untouched, file parses strictly; author of the next commit = local-before-global identity; commit gated on both name and e-mail; values with '=', brackets, '#', ';', quotes, every other punctuation character, non-ASCII, values around 4096 and 8192 bytes", "6 C20"),
 }
 technique = {
  MC: "TLA+ spec (Goit.tla + GoitProps clauses) model-checked by TLC on bounded instances; TLC-generated transitions and random/scenario runs replayed on the real goit binary; every recorded step judged by TLC (trace validation against the spec's clauses)",
@@ -63,7 +63,7 @@ m = {
  "engines": [{"name": "goit-tla", "path": "/verif/spec + /verif/harness", "serves_properties": [p["id"] for p in props],
               "kind_free_text": "explicit TLA+ specification (operational model, property clauses, known-deviation module, trace judge) + TLC; Go harness that builds goit from /repo, drives it (TLC-generated transitions, seeded random, scenarios, strace crash/fault/damage enumeration), projects the on-disk state with independent decoders and has TLC judge every recorded step"}],
  "checks": checks,
- "notes": "Exit codes: 0 held (KNOWN-FINDING lines possible), 1 violation (each re-executed from its replay file before it is printed), 2 infrastructure failure (never a verdict). VERIF_SEED seeds every random choice. VERIF_REPO overrides /repo (used only for self-tests against scratch worktrees). Known findings: /verif/known_findings.json.",
+ "notes": "Exit codes: 0 held (KNOWN-FINDING lines possible), 1 violation (each re-executed from its replay file before it is printed), 2 infrastructure failure (never a verdict). VERIF_SEED seeds every random choice. VERIF_REPO overrides /repo (used only for self-tests against scratch worktrees). Known findings: /verif/known_findings.json (none open at present; repaired defects are listed there as `fixed`). Evidence of a run with VERIF_REPO set to another tree is written to scratch, never to /verif/evidence.",
  "not_applicable": [],
 }
 json.dump(m, open(os.path.join(here, 'MANIFEST.json'), 'w'), indent=1)
